@@ -216,6 +216,12 @@ def run(chk):
                 inst = f'{model}: after {" ; ".join(seq)} every exposed tidal quantity equals that of a fresh world in the final state'
                 chk.ob('R13.3', inst, not bad, '; '.join(bad[:4]), where_t, key=f'R13.3|{model}|{"+".join(seq)}', method='abstract object graph + GF(p^2) PIT')
     chk.note_analysed('mutator_sequences', nseq)
+    # ---- R13.7 the layered model (per-layer rheology, LayeredTides): same question on a three-layer world
+    from . import c13_layered
+    c13_layered.run_layered(chk, repo, 'R13.7')
+    chk.floor('R13.7', 15)
+    c13_layered.functional(chk, repo, 'R13.8')
+    chk.floor('R13.8', 2)
     functional_api(chk, repo, d)
     plumbing(chk, repo)
     chk.floor('R13.3', 25); chk.floor('R13.5', 1); chk.floor('R13.2', 3); chk.floor('R13.4', 6); chk.floor('R13.6', 4)
